@@ -18,7 +18,7 @@ import (
 func init() { checks["c02srv"] = checkC02Srv }
 
 func checkC02Srv(job *Job, res *Result) {
-	res.Rule = "SEQ over inputs: 3 datasets (12 objects of every geometry kind at awkward coordinates; the same after overwrites / moves / deletes; 90 grid objects) x 42 areas of 8 kinds (+ 11 CLIPBY combinations, 5 of them with two or three CLIPBY clauses) x {WITHIN, INTERSECTS}: search result = set of ids for which TEST on the single object answers 1; SPARSE 1..3 subset of it; distinct = distinct (dataset, command, area, result)"
+	res.Rule = "SEQ over inputs: 3 datasets (12 objects of every geometry kind at awkward coordinates; the same after overwrites / moves / deletes; 90 grid objects) x 42 areas of 8 kinds (+ 11 CLIPBY combinations, 5 of them with two or three CLIPBY clauses; 6 areas of other kinds clipped by a box: every WITHIN result lies within both) x {WITHIN, INTERSECTS}: search result = set of ids for which TEST on the single object answers 1; SPARSE 1..3 subset of it; distinct = distinct (dataset, command, area, result)"
 	res.Assumptions = append(res.Assumptions, "objects with an empty geometry are never a search result", "TEST has no CLIPBY: a bounds area clipped by bounds is compared with TEST on the intersection rectangle")
 	objs := [][]string{
 		w("p0 POINT 0 0"), w("pn POINT 33.000000123 -115.00000987"), w("ps POINT -33.000000123 115.00000987"), w("pe POINT 90 180"), w("pw POINT -90 -180"),
@@ -158,6 +158,34 @@ func checkC02Srv(job *Job, res *Result) {
 				}
 				for _, cl := range clips {
 					run(cmd, append(append(append([]string{}, cl.area...), "CLIPBY"), cl.by...), cl.inter, "clipby")
+				}
+				// any area kind clipped by a box: whatever is returned lies inside BOTH
+				// (for WITHIN: X within A-clipped-by-B  <=>  X within A and X within B)
+				if cmd == "WITHIN" {
+					for _, cj := range [][2][]string{
+						{w("CIRCLE 0 0 600000"), w("BOUNDS 0 0 3 3")}, {w("CIRCLE 5 5 500000"), w("BOUNDS 0 0 2.5 2.5")},
+						{w("SECTOR 0 0 600000 0 90"), w("BOUNDS 0 0 2 2")}, {w("HASH s0"), w("BOUNDS 0 0 3 3")}, {w("TILE 1 1 1"), w("BOUNDS -5 -5 5 5")},
+						{{"OBJECT", `{"type":"Polygon","coordinates":[[[-4,-4],[4,-4],[0,4],[-4,-4]]]}`}, w("BOUNDS -1 -1 1 1")},
+					} {
+						caseNo++
+						if caseNo%job.NShards != job.Shard {
+							continue
+						}
+						area := append(append(append([]string{}, cj[0]...), "CLIPBY"), cj[1]...)
+						got, ok := idsOf(c.Do(append([]string{cmd, key, "LIMIT", "100000", "IDS"}, area...)...))
+						if !ok {
+							continue
+						}
+						res.Evaluations++
+						res.DistinctS(fmt.Sprint(variant, cmd, area, got))
+						for _, id := range got {
+							for _, part := range cj {
+								if t := c.Do(append([]string{"TEST", "GET", key, id, cmd}, part...)...); t.String() != ":1" {
+									res.Violate("C02/clipby:returns-object-outside:"+strings.ToLower(cj[0][0]), fmt.Sprintf("%s %s IDS %v returns %s, but TEST GET %s %s WITHIN %v -> %s  [dataset variant %d]", cmd, key, area, id, key, id, part, t, variant), map[string]any{"cmd": cmd, "area": area, "variant": variant})
+								}
+							}
+						}
+					}
 				}
 			}
 			res.States++
